@@ -151,3 +151,37 @@ PROPS.append(('C01', """(* C01 - a corpus document embedded verbatim in a file i
  ('C01_filter_keeps', 'filter_keeps', 'V2/Planted.v', 'the exact condition under which the overlap/containment filter keeps a candidate'),
  ('C01_isolation_is_needed', 'ex_C01_needs_isolation', 'V2/Planted.v', 'two different documents planted on the SAME line: only one is reported - the separation by unrelated text on its own lines in the property is essential', 'typeof'),
 ], ''))
+
+IMP_V1 = """From Coq Require Import List NArith ZArith Bool Arith Lia.
+Import ListNotations.
+From LC.Base Require Import Utf8.
+From LC.V1 Require Import Tok1 Matcher1 Tok1Proof Matcher1Proof."""
+
+PROPS.append(('C17', """(* C17 - v1 token offsets and candidate ranges always delimit real text.
+   Statements only; proofs in V1/Tok1Proof.v.  [tokenize U true] is the model
+   of searchset/tokenizer.Tokenize as repaired (token text = source bytes);
+   [candidates_from_sorted] models untangle/split/merge/coalesce of
+   searchset.FindPotentialMatches starting from the sorted list of q-gram
+   matches (targetMatchedRanges and sort.Sort are an oracle: any list of
+   in-bounds ranges sorted by target start). *)""", IMP_V1, [
+ ('C17_offsets_reproduce_text', 'tok_text_at', 'V1/Tok1Proof.v', 'every token text is exactly the bytes of the string at its offset, non-empty, inside the string'),
+ ('C17_tokens_ordered', 'tok_ordered', 'V1/Tok1Proof.v', 'tokens are in increasing, non-overlapping order'),
+ ('C17_tokens_cover_non_space', 'tok_cover', 'V1/Tok1Proof.v', 'every non-space rune lies inside a token, every space rune outside all tokens'),
+ ('C17_candidates_well_formed', 'candidates_ok', 'V1/Tok1Proof.v', 'every candidate is non-empty, every range lies within the target token bounds with start < end, and the concatenation of all candidates is ordered by target position'),
+ ('C17_candidates_ordered', 'cand_ordered', 'V1/Tok1Proof.v', 'candidates are ordered by target position'),
+ ('C17_source_ranges_nonempty', 'cand_range_ok_lex', 'V1/Tok1Proof.v', 'under the real sort order source ranges stay non-empty as well (the second merge branch is dead code)'),
+ ('C17_target_range_inside_text', 'candidates_target_range_tokenize', 'V1/Tok1Proof.v', 'TargetRange of every candidate is a byte range with start <= end inside the tokenized string: Offset/Extent can always be used to slice the text'),
+ ('C17_original_refuted', 'unfixed_refuted', 'V1/Tok1Proof.v', 'REFUTATION for Tokenize as found: on invalid UTF-8 a token extends past the end of the string'),
+], ''))
+
+PROPS.append(('C13', """(* C13 - v1 string classifier finds verbatim occurrences exactly.  PARTIAL:
+   the model covers the exact-occurrence branch of findMatches (token scan,
+   TargetRange, slice bounds); regexp literal search, levDist/go-diff, dedup,
+   uniquify, queues and the goroutine fan-out are exercised by the oracle only.
+   Statements only; proofs in V1/Matcher1Proof.v. *)""", IMP_V1, [
+ ('C13_exact_occurrence_span', 'exact_span_aligned', 'V1/Matcher1Proof.v', 'a token-aligned verbatim occurrence is reported with exactly its Offset and Extent (one-token occurrences included, since the "fix:")'),
+ ('C13_reported_spans_inside_text', 'exact_span_in_bounds', 'V1/Matcher1Proof.v', 'every reported Offset/Extent lies inside the normalised unknown string'),
+ ('C13_original_multi_token', 'exact_span_multi_original', 'V1/Matcher1Proof.v', 'the scan as found was already exact for occurrences of at least two tokens'),
+ ('C13_original_single_token_panics', 'scan_original_single_token_refuted', 'V1/Matcher1Proof.v', 'REFUTATION for the scan as found: "foo" in "bar foo" is the slice [4:3] panic', 'typeof'),
+ ('C13_original_single_token_extent', 'scan_original_single_token_refuted_extent', 'V1/Matcher1Proof.v', '... and "foo" in "foo bar" is reported with extent 7', 'typeof'),
+], ''))
